@@ -156,15 +156,19 @@ Definition skips_of (c : case) (t : nat) : nat :=
 Definition layer_failures (evs : list oev) : list name :=
   flat_map (fun e => match e with OSetUp l HRaise | OSetUp l HNotImpl => [NLayerSetUp l] | OTearDown l HRaise => [NLayerTearDown l] | _ => [] end) evs.
 (* decorator-skipped tests run no code; they count as run (and skipped) when their layer's tests ran *)
-Definition deco_counted (c : case) (evs : list oev) : nat :=
-  length (filter (fun b => t_deco b && existsb (fun t => Nat.eqb (layer_of (w c) t) (t_layer b)) (started evs)) (tests (w c))).
+Definition deco_tests (c : case) (evs : list oev) : list test :=
+  filter (fun b => t_deco b && existsb (fun t => Nat.eqb (layer_of (w c) t) (t_layer b)) (started evs)) (tests (w c)).
+Definition deco_counted (c : case) (evs : list oev) : nat := length (deco_tests c evs).
+(* what a started test adds to "tests run": its countTestCases() *)
+Definition cnt_of (c : case) (t : nat) : nat := match behaviour c t with Some b => t_count b | None => 1 end.
+Definition deco_ran (c : case) (evs : list oev) : nat := fold_left (fun a b => a + t_count b) (deco_tests c evs) 0.
 
 Definition sum4 (l : list (nat * nat * nat * nat)) : nat * nat * nat * nat :=
   fold_left (fun a q => let '(a1, a2, a3, a4) := a in let '(b1, b2, b3, b4) := q in (a1 + b1, a2 + b2, a3 + b3, a4 + b4)) l (0, 0, 0, 0).
 
 (* hypotheses under which the statement is evaluated (others are counted as outside) *)
 Definition c12_hyps (c : case) : bool :=
-  negb (o_x (o c)) && Nat.leb (reps_of c) 1 && Nat.eqb (o_import_errors (o c)) 0
+  negb (o_x (o c)) && Nat.eqb (o_import_errors (o c)) 0
   (* every layer that has a decorator-skipped test also has an ordinary one, so that "its tests ran" is observable *)
   && forallb (fun b => negb (t_deco b) || existsb (fun b' => negb (t_deco b') && Nat.eqb (t_layer b') (t_layer b)) (tests (w c))) (tests (w c)).
 
@@ -173,8 +177,10 @@ Definition c12_core (c : case) (skip_all_procs : bool) : bool :=
   let st := flat_map started procs in
   let exp_fail := flat_map (fun t => names_of c t false) st in
   let exp_err := flat_map (fun t => names_of c t true) st ++ flat_map layer_failures procs in
-  let exp_ran := length st + fold_left (fun a evs => a + deco_counted c evs) procs 0 in
-  let skip_in evs := fold_left (fun a t => a + skips_of c t) (started evs) 0 + deco_counted c evs in
+  (* decorator-skipped tests leave no trace event: they count once per --repeat iteration of their layer *)
+  let r := reps_of c in
+  let exp_ran := fold_left (fun a t => a + cnt_of c t) st 0 + r * fold_left (fun a evs => a + deco_ran c evs) procs 0 in
+  let skip_in evs := fold_left (fun a t => a + skips_of c t) (started evs) 0 + r * deco_counted c evs in
   let exp_skip := if skip_all_procs then fold_left (fun a evs => a + skip_in evs) procs 0 else skip_in (i_parent c) in
   let '(s1, s2, s3, s4) := sum4 (i_summaries c) in
   (* names listed = exactly the failing / erroring tests and failed layers (plus subprocess errors, none here) *)
@@ -188,7 +194,9 @@ Definition c12_core (c : case) (skip_all_procs : bool) : bool :=
       Nat.eqb (length raised) (length listed)
       && forallb (fun L => existsb (fun l => mem l (stack (w c) L)) raised) listed
       && forallb (fun l => existsb (fun L => mem l (stack (w c) L)) listed) raised)
-  && Nat.eqb exp_ran (i_ran c)
+  (* --repeat n: failures, errors and skips are reported for all iterations, the "tests run" total for one iteration of each
+     layer (what upstream documents: "Total: 182 tests" for three iterations); the per-iteration summaries add up to all *)
+  && Nat.eqb exp_ran (r * i_ran c)
   && Nat.eqb exp_skip (i_skip c)
   (* per-layer summaries add up to the same numbers (layer failures are not attributed to a summary line) *)
   && Nat.eqb s1 exp_ran && Nat.eqb s2 (length exp_fail)
